@@ -58,9 +58,57 @@ fn type_is_scalar_common(
     dependencies: &IndexMap<String, Schema>,
     type_check: fn(&InstanceType) -> bool,
 ) -> Result<(), String> {
+    type_is_scalar_path(
+        operation_id,
+        name,
+        schema,
+        dependencies,
+        type_check,
+        &mut Vec::new(),
+    )
+}
+
+/// Like `type_is_scalar_common`, with the schemas whose subschemas are
+/// currently being examined in `path`: a type that contains itself through
+/// `allOf`/`anyOf`/`oneOf` is not scalar.
+fn type_is_scalar_path<'a>(
+    operation_id: &str,
+    name: &str,
+    schema: &'a Schema,
+    dependencies: &'a IndexMap<String, Schema>,
+    type_check: fn(&InstanceType) -> bool,
+    path: &mut Vec<&'a Schema>,
+) -> Result<(), String> {
     // Make sure we're examining a type and not a reference
     let schema = type_resolve(schema, dependencies);
 
+    if path.iter().any(|seen| std::ptr::eq(*seen, schema)) {
+        return Err(format!(
+            "for endpoint {} the parameter '{}' must have a scalar type",
+            operation_id, name
+        ));
+    }
+    path.push(schema);
+    let result = type_is_scalar_resolved(
+        operation_id,
+        name,
+        schema,
+        dependencies,
+        type_check,
+        path,
+    );
+    path.pop();
+    result
+}
+
+fn type_is_scalar_resolved<'a>(
+    operation_id: &str,
+    name: &str,
+    schema: &'a Schema,
+    dependencies: &'a IndexMap<String, Schema>,
+    type_check: fn(&InstanceType) -> bool,
+    path: &mut Vec<&'a Schema>,
+) -> Result<(), String> {
     match schema {
         // Types that have no subschemas, are not arrays, are not objects, are
         // not references, and whose instance type matches the limited set of
@@ -93,6 +141,7 @@ fn type_is_scalar_common(
             subschemas,
             dependencies,
             type_check,
+            path,
         ) =>
         {
             Ok(())
@@ -109,12 +158,13 @@ fn type_is_scalar_common(
 /// the `type_check` parameter). For `allOf` and `anyOf` subschemas, we proceed
 /// only if there is a lone subschema which we check recursively. For `oneOf`
 /// subschemas, we check that each subschema is scalar.
-fn type_is_scalar_subschemas(
+fn type_is_scalar_subschemas<'a>(
     operation_id: &str,
     name: &str,
-    subschemas: &SubschemaValidation,
-    dependencies: &IndexMap<String, Schema>,
+    subschemas: &'a SubschemaValidation,
+    dependencies: &'a IndexMap<String, Schema>,
     type_check: fn(&InstanceType) -> bool,
+    path: &mut Vec<&'a Schema>,
 ) -> bool {
     match subschemas {
         SubschemaValidation {
@@ -134,12 +184,13 @@ fn type_is_scalar_subschemas(
             if_schema: None,
             then_schema: None,
             else_schema: None,
-        } if subs.len() == 1 => type_is_scalar_common(
+        } if subs.len() == 1 => type_is_scalar_path(
             operation_id,
             name,
             subs.first().unwrap(),
             dependencies,
             type_check,
+            path,
         )
         .is_ok(),
 
@@ -152,12 +203,13 @@ fn type_is_scalar_subschemas(
             then_schema: None,
             else_schema: None,
         } => subs.iter().all(|schema| {
-            type_is_scalar_common(
+            type_is_scalar_path(
                 operation_id,
                 name,
                 schema,
                 dependencies,
                 type_check,
+                path,
             )
             .is_ok()
         }),
